@@ -349,6 +349,46 @@ type atStmtOpts struct {
 	nullBias bool
 }
 
+// atGenNearUpdate: UPDATE of one row that moves one DOUBLE or BIGINT column to a neighbouring value (next float, a
+// relative step of 1e-9, +1 on a large integer) and touches nothing else: the images of the statement differ in that
+// one column only, and only slightly. ok is false when the table has no such column with a value.
+func atGenNearUpdate(r *vc.Rand, t *atTable) (atStmt, bool) {
+	for _, ri := range r.Perm(len(t.Rows)) {
+		row := t.Rows[ri]
+		for _, ci := range t.valueCols() {
+			var nv interface{}
+			switch v := row[ci].(type) {
+			case float64:
+				if t.Kinds[ci] != "double" {
+					continue
+				}
+				switch r.Intn(3) {
+				case 0:
+					nv = math.Nextafter(v, math.Inf(1))
+				case 1:
+					nv = v + math.Abs(v)*1e-9
+				default:
+					nv = v*(1+1e-9) + 1e-9
+				}
+				if nv == v {
+					nv = math.Nextafter(v, math.Inf(1))
+				}
+			case int64:
+				if t.Kinds[ci] != "bigint" || v == math.MaxInt64 {
+					continue
+				}
+				nv = v + 1
+			default:
+				continue
+			}
+			where, wargs := pkWhere(t, row, true)
+			return atStmt{Kind: "update", Table: t.Name, SQL: fmt.Sprintf("update %s set %s = ? where %s", t.Name, t.Def.Cols[ci].Name, where), Args: append([]tval{tvOf(nv)}, wargs...),
+				Feat: map[string]string{"stmt": "update-neighbour-value", "params": "true", "rows": "1", "where": "pk", "set_kinds": t.Kinds[ci]}}, true
+		}
+	}
+	return atStmt{}, false
+}
+
 // atGenUpdate: UPDATE t SET <1..2 value columns> WHERE ...
 func atGenUpdate(r *vc.Rand, t *atTable, o atStmtOpts) atStmt {
 	vcs := t.valueCols()
